@@ -46,11 +46,7 @@ pub fn run(path: &str) -> i32 {
             if o.is_panic() { 1 } else { 0 }
         }
         "history" => crate::checks::c17::replay(&v),
-        "cli" => {
-            println!("the recorded case (re-run the check to re-execute it under the scheduler / with the rebuilt binary):");
-            println!("{}", serde_json::to_string_pretty(&v).unwrap_or_default());
-            2
-        }
+        "cli" => crate::checks::c18::replay(&v),
         other => {
             println!("replay of kind '{}' is handled by re-running the check; case: {}", other, v);
             2
